@@ -37,12 +37,15 @@ def jobs(tier, seed):
     m = 10 if tier == "thorough" else 6
     out += [{"kind": "B", "cls": c, "L": L} for c in ("IBAN", "BIC", "BBAN") for L in range(0, m + 1)]
     out += [{"kind": "B-valid", "cc": cc} for cc in ("DE", "IT", "GB")]
+    out += [{"kind": "B-list", "L": L, "same": sm} for L in (0, 3, 8) for sm in (False, True)]
     return out
 
 
 def run_job(job, res):
     if job["kind"] == "A":
         run_a(job, res)
+    elif job["kind"] == "B-list":
+        run_b_list(job["L"], res, job.get("same", False))
     elif job["kind"] == "B":
         run_b(job["cls"], job["L"], None, res)
     else:
@@ -260,5 +263,52 @@ def run_b(clsname, L, cc, res):
             cps = H.model_cps(ctx.model(), chars)
             res["witnesses"].append({"property": "C16", "what": f"{clsname} copies", "mode": "witness", "engine": {"outcome": "return", "value": {"cp": [111, 107]}},
                                      "call": {"steps": [["call", "spec.replay_preds.c16_copies", [clsname, H.cp_enc(cps), cc is not None], {}]]}})
+
+    rt.explore(fn, on_path)
+
+
+def run_b_list(L, res, same=False):
+    """deep copy of a container holding several value objects (possibly with equal text but different class/country)"""
+    import copy
+
+    holder = {}
+
+    def fn():
+        import schwifty
+        from schwifty.bban import BBAN
+
+        a = [rt.compact_char(f"a{i}") for i in range(L)]
+        b = a if same else [rt.compact_char(f"b{i}") for i in range(L)]
+        holder.update(a=a, b=b)
+        objs = [BBAN("DK", H.symstr(a) if a else ""), BBAN("FI", H.symstr(b) if b else ""), schwifty.BIC(H.symstr(b) if b else "", allow_invalid=True),
+                schwifty.IBAN(H.symstr(a) if a else "", allow_invalid=True)]
+        r = H_try(lambda: copy.deepcopy(objs))
+        return objs, r
+
+    def on_path(out):
+        objs, r = out[1]
+        res["obligations"] += 1
+        bad = None
+        if r[0] == "exc":
+            bad = f"deepcopy of a list of objects raised {type(r[1]).__name__}"
+        else:
+            for x, y in zip(objs, r[1]):
+                if type(x) is not type(y):
+                    bad = f"copy of a {type(x).__name__} is a {type(y).__name__}"
+                    break
+                c = neq(x, y)
+                if c is not False and ((c is True and ctx.final()) or (c is not True and ctx.final(c))):
+                    bad = "copied element differs"
+                    break
+                if hasattr(x, "__dict__") and "country_code" in x.__dict__ and x.__dict__["country_code"] != y.__dict__.get("country_code"):
+                    bad = f"country of the copied {type(x).__name__} changed from {x.__dict__['country_code']} to {y.__dict__.get('country_code')}"
+                    break
+        if bad:
+            if not ctx.final():
+                return
+            m = ctx.model()
+            res["violations"].append({"property": "C16", "what": f"deepcopy of [BBAN DK, BBAN FI, BIC, IBAN] (len {L}): {bad}", "mode": "violation",
+                                      "call": {"steps": [["call", "spec.replay_preds.c16_list", [H.cp_enc(H.model_cps(m, holder["a"])), H.cp_enc(H.model_cps(m, holder["b"]))], {}]]},
+                                      "pred": {"kind": "value_is_not", "value": {"cp": [111, 107]}}, "engine": {"outcome": "return"}})
 
     rt.explore(fn, on_path)
